@@ -1,4 +1,4 @@
-//@unit U3 props=C01,C02,C03,C06 SliceConstructor reassembler (renet/src/channel/slice_constructor.rs)
+//@unit U3 props=C01,C02,C03,C06,C09 SliceConstructor reassembler (renet/src/channel/slice_constructor.rs)
 #![feature(allocator_api)]
 #![allow(unused_imports, dead_code, unused_variables, unused_mut)]
 use vstd::prelude::*;
